@@ -239,6 +239,11 @@ func runProperty(cfg eng.Config, pr *rules.Property, tier, verif string, control
 	if main.Error != "" {
 		return fail("cannot decide: " + main.Error)
 	}
+	if os.Getenv("RLINT_VERBOSE") != "" {
+		for _, o := range main.Obl {
+			fmt.Printf("  %-10s %s | %s @%s: %s\n", o.Verdict, o.Rule, o.Construct, o.Where, o.Detail)
+		}
+	}
 	r.Obl = main.Obl
 	r.Notes = main.Notes
 	r.Functions = main.Functions
